@@ -185,6 +185,10 @@ def aggregate(mod, prop, tier, seed, cases, results, inconclusive, wall):
         elif len(samples) < 2:
             samples.append(samp)
         for v in r.get("violations") or []:
+            if v.get("kind") == "oracle-error":
+                # the monitor itself failed: that decides nothing about the code under test
+                inconclusive.append("case %s: oracle of %s raised %s" % (r["id"], v.get("component"), v.get("detail")))
+                continue
             key = (v.get("component"), v.get("kind"), v.get("trigger"))
             g = groups.setdefault(key, {"first": None, "count": 0, "cases": []})
             g["count"] += 1
